@@ -25,7 +25,7 @@ ENTRY = dict(
         corr_files=["Corr/C18Corr.v"],
         theorems=_T,
         allowed_axioms=[],
-        facts=["value_error_sites", "c18_guards"],
+        facts=["value_error_sites", "c18_guards", "c18_sim_cond_guard_first"],
         harness="c18",
         level_text="Unbounded theorems about the executable model of the validation blocks of 29 functions (22 entry points): one implication "
                    "per documented error class, each for EVERY position of the offending element and arbitrary other input (all list "
